@@ -436,6 +436,7 @@ func runC15(p *P, r *R) {
 	// R15.6 making a stream reusable never drops buffers it still owns (shared with C09 R09.12)
 	borrow(p, r, "C09", runC09, map[string]string{"R09.12": "R15.6"}, nil)
 	c15HandsOff(p, r)
+	registrationOnlyWhenAbsent(p, r, "R15.8")
 }
 
 // c15HandsOff (R15.7): once a stream has been pushed into the pool another caller may pop it at any moment, so the
@@ -483,4 +484,40 @@ func narrows(v ssa.Value) bool {
 		}
 		v = c.X
 	}
+}
+
+// registrationOnlyWhenAbsent (R15.8 / R07.9): a stream is entered into the session's table under an id only on the edge
+// on which the table was found to hold no entry for that id — whatever state a still-registered stream is in, its id
+// is taken: the holder's later close removes "its" entry by id, which would then be the newcomer's.
+func registrationOnlyWhenAbsent(p *P, r *R, rule string) {
+	n := 0
+	for _, f := range p.fnList {
+		allInstrs(f, func(in ssa.Instruction) {
+			mu, ok := in.(*ssa.MapUpdate)
+			if !ok || !isLoadOf(mu.Map, "Session.streams") || isNilConst(mu.Value) {
+				return
+			}
+			n++
+			isOk := func(v ssa.Value) bool {
+				e, okE := v.(*ssa.Extract)
+				if !okE || e.Index != 1 {
+					return false
+				}
+				lk, okL := e.Tuple.(*ssa.Lookup)
+				return okL && lk.CommaOk && isLoadOf(lk.X, "Session.streams") && lk.Index == mu.Key
+			}
+			goodEdge := func(b *ssa.BasicBlock, i int) bool {
+				ifi := blockIf(b)
+				if ifi == nil {
+					return false
+				}
+				cond, neg := stripNot(ifi.Cond)
+				return isOk(cond) && (i == 0) == neg // taken when ok is false
+			}
+			okp := !p.reachesWithout(Point{f.Blocks[0], -1}, in, nil, func(b *ssa.BasicBlock, i int) bool { return !goodEdge(b, i) })
+			r.ob(rule, p.fname(f)+": a stream is registered under an id only when the table holds no entry for that id", p.ipos(in), okp, true,
+				"an id that is still registered (in whatever state) must not be handed out again")
+		})
+	}
+	r.count(rule, "registrations in the stream table", n, 2)
 }
